@@ -947,22 +947,36 @@ class ItemMoveMultiple(MosFile):
                 f"{self.__class__.__name__} error in {self.message_id} - story not found"
             )
 
-        if self.item is None:
-            target_item_index = len(story)
-        else:
+        # check every reference before changing anything
+        target_item = None
+        if self.item is not None:
             target_item, target_item_index = find_child(parent=story, child_tag='item', id=self.item.id)
             if target_item is None:
                 raise MosMergeError(
                     f"{self.__class__.__name__} error in {self.message_id} - target item not found"
                 )
 
-        for i, item in enumerate(self.items, start=target_item_index):
+        source_items = []
+        for item in self.items:
             source_item, source_item_index = find_child(parent=story, child_tag='item', id=item.id)
             if source_item_index is None:
                 raise MosMergeError(
                     f"{self.__class__.__name__} error in {self.message_id} - source item not found"
                 )
+            if source_item is target_item or source_item in source_items:
+                raise MosMergeError(
+                    f"{self.__class__.__name__} error in {self.message_id} - item listed more than once"
+                )
+            source_items.append(source_item)
+
+        for source_item in source_items:
             remove_node(parent=story, node=source_item)
+        if target_item is None:
+            target_item_index = len(story)
+        else:
+            target_item_index = list(story).index(target_item)
+        # the moved items go in front of the reference item, in the order given
+        for i, source_item in enumerate(source_items, start=target_item_index):
             insert_node(parent=story, node=source_item, index=i)
 
         return ro
